@@ -60,9 +60,12 @@ DeepO(d, leaf) == IF d = 0 THEN leaf ELSE VObj(<< <<<<107>>, DeepO(d - 1, leaf)>
 DeepTrees == {DeepA(1000, VNum(N_one)), DeepA(999, VArr(<<>>)), DeepO(1000, VStr(<<118>>)), DeepO(400, DeepA(600, VNull))}
 HugeTrees == DeepTrees \cup {VObj(<< <<<<104>>, VStr(As(40000))>>, <<<<110>>, VNum(N_one)>>, <<<<98>>, VStr(As(100000))>>, <<<<116>>, VArr(<<VTrue, VNull>>)>> >>),
               VStr(As(66000)), VArr([i \in 1..9000 |-> VStr(As(7))]) }
-Universe == IF Tier = "huge" THEN HugeTrees ELSE IF Tier = "deep" THEN {DeepA(1000, VNum(N_one)), DeepA(999, VArr(<<>>)), DeepO(1000, VNull)} ELSE IF Tier = "table" THEN {VNull} ELSE IF Tier = "quick" THEN Scalars \cup L1 \cup D3 \cup Raws
+\* bytes that a character-class function may classify differently from the escaping rule (DEL, C1 controls, 0xFF), next to bytes that are escaped
+MixStrs == {<<127, 34>>, <<10, 127>>, <<127, 127, 1>>, <<128, 10>>, <<159, 34, 133>>, <<255, 9>>, <<34, 127, 92, 127>>}
+MixTrees == {VStr(x) : x \in MixStrs} \cup {VArr(<<VStr(x), VNull>>) : x \in MixStrs} \cup {VObj(<< <<x, VStr(x)>>, <<<<127>>, VNum(N_one)>> >>) : x \in MixStrs}
+Universe == IF Tier = "huge" THEN HugeTrees ELSE IF Tier = "deep" THEN {DeepA(1000, VNum(N_one)), DeepA(999, VArr(<<>>)), DeepO(1000, VNull)} ELSE IF Tier = "table" THEN {VNull} ELSE IF Tier = "quick" THEN Scalars \cup L1 \cup D3 \cup Raws \cup MixTrees
             ELSE IF Tier = "big" THEN BigTrees
-            ELSE Scalars \cup L1 \cup L2 \cup D3 \cup Raws
+            ELSE Scalars \cup L1 \cup L2 \cup D3 \cup Raws \cup MixTrees
 
 RECURSIVE HasRaw(_)
 HasRaw(x) == x.t = "raw" \/ \E i \in DOMAIN x.m : HasRaw(x.m[i].v)
